@@ -30,7 +30,7 @@ def emit(sc, module, cfg_text, tag, workers=1, timeout=1800):
 
 
 def run(pid, tier, seed, *, emitters, extras, sig, rule, assumptions, trace_module="Trace_Func", chunk=2500, x64=True,
-        level="model_checking", nontrivial=None, prepare=None, exhaustive=True):
+        level="model_checking", nontrivial=None, prepare=None, exhaustive=True, thorough_reps=4):
     """emitters: list of (module, cfg_text, tag); extras(rng seed) -> extra records; sig(rec) -> flat dict"""
     t0 = time.time()
     sc = core.Scratch(pid)
@@ -44,8 +44,15 @@ def run(pid, tier, seed, *, emitters, extras, sig, rule, assumptions, trace_modu
             trans += r.generated
             mc_info.append(dict(run=tag, module=module, configurations=len(rs), distinct=r.distinct, wall_s=round(r.wall, 1)))
         n_enum = len(recs)
+        reps = 1
         if prepare is not None:
-            recs = prepare(recs, seed)        # instantiate / select the structural configurations
+            # instantiate / select the structural configurations; the thorough tier instantiates every structure with
+            # several independent seeds (coefficients, points, tables)
+            reps = 1 if tier == "quick" else thorough_reps
+            structs = recs
+            recs = []
+            for j in range(reps):
+                recs += prepare(structs, seed + 7919 * j)
         n_tlc = len(recs)
         recs += extras(seed)
         out = core.run_drivers("harness.drv_func:run_case", recs, x64=x64)
@@ -106,9 +113,9 @@ def run(pid, tier, seed, *, emitters, extras, sig, rule, assumptions, trace_modu
             clauses[v["clause"]] = clauses.get(v["clause"], 0) + 1
         cov = dict(
             states=states + tstates, transitions=trans + sum(r.generated for r in res), traces_validated_against_impl=acc,
-            samples=[core.clip(r, 1500) for r in out[:: max(1, len(out) // 3)][:3]], exhaustive=bool(exhaustive and n_tlc == n_enum),
+            samples=[core.clip(r, 1500) for r in out[:: max(1, len(out) // 3)][:3]], exhaustive=bool(exhaustive and n_tlc == n_enum * reps),
             evaluations=len(out), distinct_nontrivial=len(distinct),
-            configurations_enumerated_by_tlc=n_enum, configurations_replayed=n_tlc, extra_seeded_records=len(out) - n_tlc, emitters=mc_info,
+            configurations_enumerated_by_tlc=n_enum, configurations_replayed=n_tlc, seeded_instances_per_structure=reps, extra_seeded_records=len(out) - n_tlc, emitters=mc_info,
             records_rejected=len(rej), rejected_by_clause=clauses, known_finding_hits=n_known, binding_selftests_rejected=nself, rule=rule)
         core.write_evidence(pid, tier, seed, level, cov, assumptions, time.time() - t0, n_new)
         print(f"{pid} [{tier}] configs(TLC)={n_tlc} extras={len(out) - n_tlc} accepted={acc} rejected={len(rej)} "
